@@ -45,7 +45,7 @@ CONSTANTS Names,     \* pod names (naturals >= 1)
           Grace,     \* leak-collector grace period (virtual ms)
           Slack      \* R5
 
-G(p, clause) == p \notin Enforce \/ clause
+G(p, clause) == IF p \in Enforce THEN clause ELSE TRUE
 
 NoTime == -1000000000
 NoPod  == [ex |-> FALSE, uid |-> 0, run |-> FALSE, term |-> FALSE, node |-> 0, fixed |-> FALSE]
